@@ -46,6 +46,9 @@ struct Reader {
     owned: Option<(Box<dyn OwnedIter>, VecDeque<Pair>)>,
     /// index of the commit point the reader began at
     cp: usize,
+    /// pages that were free at some boundary after the reader began
+    freed_since: BTreeSet<(u32, u32)>,
+    reused: bool,
 }
 
 struct ESave {
@@ -113,6 +116,17 @@ pub struct Interp {
     /// set when a storage fault was injected: results are no longer compared with the model
     pub storage_failed: bool,
     pub last_commit_durable: bool,
+    /// compare every live reader with its snapshot at every transaction boundary (C02)
+    pub auto_rcheck: bool,
+    /// run the independent decoder on the storage bytes after every durable commit (C10)
+    pub decode_every_commit: bool,
+    pub decoded_images: u64,
+    /// C05: the allocator's allocated set after abort / drop / poisoned commit must equal the set
+    /// recorded when the transaction began
+    pub abort_set_equality: bool,
+    alloc_at_begin: Option<Vec<(u32, u32)>>,
+    pub aborts_checked: u64,
+    pub failed_commit_model: Option<DbModel>,
 }
 
 pub type StepResult = Result<String, String>;
@@ -201,6 +215,13 @@ impl Interp {
             shape_sigs: BTreeSet::new(),
             storage_failed: false,
             last_commit_durable: true,
+            auto_rcheck: false,
+            decode_every_commit: false,
+            decoded_images: 0,
+            abort_set_equality: false,
+            alloc_at_begin: None,
+            aborts_checked: 0,
+            failed_commit_model: None,
         })
     }
 
@@ -233,6 +254,10 @@ impl Interp {
     }
     pub fn any_esave(&self) -> bool {
         self.esaves.iter().any(|r| r.is_some())
+    }
+    /// an ephemeral savepoint that a committed restore has not invalidated
+    pub fn any_valid_esave(&self) -> bool {
+        self.esaves.iter().flatten().any(|e| !self.invalid_ranks.contains(&e.rank))
     }
     pub fn working_model(&self) -> Option<&DbModel> {
         self.working.as_ref().map(|w| &w.m)
@@ -271,6 +296,19 @@ impl Interp {
         self.cur = None;
         self.cur_model = None;
         self.tabs = [None, None];
+    }
+
+    /// Called by the fault engine after a step reported a storage failure: live transaction
+    /// objects are dropped (redb skips rollback I/O after a storage failure), the model of a
+    /// requested-but-failed commit becomes a candidate commit point.
+    pub fn enter_failed_state(&mut self) {
+        self.storage_failed = true;
+        self.drop_txn_objects();
+        self.wt = None;
+        self.working = None;
+        if let Some(m) = self.failed_commit_model.take() {
+            self.cps.push(m);
+        }
     }
 
     /// Orderly teardown: everything but the database
@@ -573,6 +611,9 @@ impl Interp {
             return Err("harness: Begin inside a transaction".into());
         }
         let db = self.db.as_ref().ok_or("harness: no database")?;
+        if self.abort_set_equality {
+            self.alloc_at_begin = Some(crate::account::allocated_set(db)?);
+        }
         let wt = db.begin_write().map_err(|e| format!("begin_write failed: {e}"))?;
         self.wt = Some(Box::new(wt));
         self.working = Some(Working {
@@ -625,6 +666,7 @@ impl Interp {
                 Err(CommitError::TransactionPoisoned) => {
                     self.expected_errors += 1;
                     self.rollback_model(&w);
+                    self.check_abort_equality("a poisoned commit()")?;
                     self.after_txn_boundary("poisoned commit")?;
                     return Ok("poisoned".into());
                 }
@@ -639,10 +681,15 @@ impl Interp {
         let _ = &mut newm;
         match wt.commit() {
             Ok(()) => {}
-            Err(e) => return Err(format!("commit failed: {e}")),
+            Err(e) => {
+                // kept for the fault engine: the commit was requested, it may or may not be applied
+                self.failed_commit_model = Some(newm);
+                return Err(format!("commit failed: {e}"));
+            }
         }
         self.mark(LogOp::Acked(idx, durable));
         self.last_commit_durable = durable;
+        self.alloc_at_begin = None;
         // savepoint bookkeeping
         if let Some(r) = w.restored_rank {
             // every savepoint created after the restored one becomes unusable
@@ -665,6 +712,30 @@ impl Interp {
         let _ = w;
     }
 
+    /// C05: no storage space remains consumed by the abandoned work, nothing still needed was
+    /// released
+    fn check_abort_equality(&mut self, what: &str) -> Result<(), String> {
+        if !self.abort_set_equality || self.storage_failed {
+            return Ok(());
+        }
+        let Some(before) = self.alloc_at_begin.take() else { return Ok(()) };
+        let db = self.db.as_ref().ok_or("harness: no db")?;
+        let after = crate::account::allocated_set(db)?;
+        self.aborts_checked += 1;
+        if before != after {
+            let b: BTreeSet<_> = before.iter().copied().collect();
+            let a: BTreeSet<_> = after.iter().copied().collect();
+            let extra: Vec<_> = a.difference(&b).take(6).collect();
+            let missing: Vec<_> = b.difference(&a).take(6).collect();
+            return Err(format!(
+                "after {what} the allocated page set differs from the set before begin_write: {} page(s) still allocated e.g. {extra:?}, {} page(s) released e.g. {missing:?}",
+                a.difference(&b).count(),
+                b.difference(&a).count()
+            ));
+        }
+        Ok(())
+    }
+
     fn op_abort(&mut self, by_drop: bool) -> StepResult {
         if self.wt.is_none() {
             return Err("harness: Abort outside a transaction".into());
@@ -678,16 +749,49 @@ impl Interp {
             wt.abort().map_err(|e| format!("abort failed: {e}"))?;
         }
         self.rollback_model(&w);
+        self.check_abort_equality(if by_drop { "dropping the transaction" } else { "abort()" })?;
         self.after_txn_boundary(if by_drop { "drop" } else { "abort" })?;
         Ok("aborted".into())
     }
 
     /// oracle evaluated at every transaction boundary
     fn after_txn_boundary(&mut self, what: &str) -> Result<(), String> {
-        if self.accounting && !self.storage_failed {
+        if self.storage_failed {
+            return Ok(());
+        }
+        if self.accounting {
             if let Some(db) = self.db.as_ref() {
                 crate::account::check(db).map_err(|e| format!("page accounting after {what}: {e}"))?;
+                if self.readers.iter().any(|r| r.is_some()) {
+                    let alloc: BTreeSet<(u32, u32)> = crate::account::allocated_set(db)?.into_iter().collect();
+                    let total = crate::account::total_pages(db)?;
+                    for rd in self.readers.iter_mut().flatten() {
+                        if !rd.reused && rd.freed_since.iter().any(|p| alloc.contains(p)) {
+                            rd.reused = true;
+                            self.reuse_under_reader += 1;
+                        }
+                        for p in &total {
+                            if !alloc.contains(p) {
+                                rd.freed_since.insert(*p);
+                            }
+                        }
+                    }
+                }
             }
+        }
+        if self.auto_rcheck {
+            for r in 0..2u8 {
+                if self.reader_has_handle(r) {
+                    self.op_rcheck(r).map_err(|e| format!("after {what}: {e}"))?;
+                }
+            }
+        }
+        #[cfg(feature = "decoder")]
+        if self.decode_every_commit && self.last_commit_durable && what == "commit" {
+            let img = self.backend.image();
+            crate::decheck::check_against_model(&img, &self.committed, false)
+                .map_err(|e| format!("independent decoder on the image after a durable commit: {e}"))?;
+            self.decoded_images += 1;
         }
         Ok(())
     }
@@ -1297,7 +1401,7 @@ impl Interp {
         let db = self.db.as_ref().ok_or("harness: no db")?;
         let rt = db.begin_read().map_err(|e| format!("begin_read failed: {e}"))?;
         self.readers[r as usize] =
-            Some(Reader { rt: Some(rt), snap: self.committed.tables.clone(), owned: None, cp: self.cps.len() - 1 });
+            Some(Reader { rt: Some(rt), snap: self.committed.tables.clone(), owned: None, cp: self.cps.len() - 1, freed_since: BTreeSet::new(), reused: false });
         Ok("ok".into())
     }
 
@@ -1393,7 +1497,8 @@ impl Interp {
             return Err("harness: compact inside a transaction".into());
         }
         let has_p = !self.committed.psave.is_empty();
-        let has_e = self.any_esave();
+        let has_e = self.any_valid_esave();
+        let may_e = self.any_esave();
         let has_r = self.any_reader();
         let before_len = self.backend.lock().data.len();
         let db = self.db.as_mut().ok_or("harness: no db")?;
@@ -1405,11 +1510,11 @@ impl Interp {
                 self.expected_errors += 1;
                 Ok("refused(persistent)".into())
             }
-            Err(CompactionError::EphemeralSavepointExists) if has_e && !has_p => {
+            Err(CompactionError::EphemeralSavepointExists) if may_e && !has_p => {
                 self.expected_errors += 1;
                 Ok("refused(ephemeral)".into())
             }
-            Err(CompactionError::TransactionInProgress) if has_r && !has_p && !has_e => {
+            Err(CompactionError::TransactionInProgress) if (has_r || may_e) && !has_p && !has_e => {
                 self.expected_errors += 1;
                 Ok("refused(reader)".into())
             }
@@ -1449,17 +1554,19 @@ impl Interp {
         if self.wt.is_some() {
             return Err("harness: check inside a transaction".into());
         }
-        let busy = self.any_reader() || self.any_esave();
+        // must refuse while a reader or a still-valid ephemeral savepoint exists; may refuse while
+        // an invalidated savepoint handle is still held (it can keep a reference alive)
+        let must_refuse = self.any_reader() || self.any_valid_esave();
+        let may_refuse = must_refuse || self.any_esave();
         let db = self.db.as_mut().ok_or("harness: no db")?;
         match db.check_integrity() {
-            Err(DatabaseError::TransactionInProgress) if busy => {
+            Err(DatabaseError::TransactionInProgress) if may_refuse => {
                 self.expected_errors += 1;
                 Ok("refused(busy)".into())
             }
             Ok(true) => {
-                if busy {
-                    // allowed only when the busy objects do not block; redb refuses, so this is unexpected
-                    return Err("check_integrity() ran with live readers/savepoints".into());
+                if must_refuse {
+                    return Err("check_integrity() ran although a read transaction or a valid ephemeral savepoint is alive".into());
                 }
                 self.mark(LogOp::Acked(self.cps.len() - 1, true));
                 self.last_commit_durable = true;
